@@ -140,9 +140,9 @@ PROPS = {
                        'object count / access level from the first DM14, DM15 proceed / operation-complete layouts, closing DM14 returns '
                        'the server to idle, facade read/write hand exactly the caller-s arguments to the query and are idle afterwards.',
         'out_of_scope': ['whole transactions over two stacks and the J1939-21 transport (composition of these contracts with C01); '
-                         'hand-over timing between DM15 proceed, DM16 data and DM15 operation-complete (observed in the design round, not '
-                         're-confirmed: an 8-octet read lets the completion DM15 overtake the multi-packet DM16)',
-                         'listener life cycle of the DM14 client (subscribe/unsubscribe of _parse_dm15/_parse_dm16 across transactions)',
+                         'hand-over timing between DM15 proceed, DM16 data and DM15 operation-complete over two threads and two stacks '
+                         '(three defects of this kind were found natively and repaired - findings/f13_dm14_transactions.py - but no '
+                         'contract decides the hand-over as a whole)',
                          'Dm14Query.read/write (blocking queue waits) and DM14Server.respond/_wait_for_data are not under contract'],
         'design_ref': '6 (C17)',
     },
